@@ -19,6 +19,7 @@ import (
 	"runtime"
 	"strconv"
 	"strings"
+	"sync"
 	"time"
 
 	"github.com/glowlabs-org/gca-backend/glow"
@@ -31,6 +32,10 @@ type World struct {
 	Servers map[string]*ServerNode // by node name
 	byLoc   map[string]*ServerNode // by location (host name)
 	Clients map[string]*ClientNode
+
+	// Nesting depth of server-to-server forwards per goroutine.
+	fwdMu    sync.Mutex
+	fwdDepth map[int64]int
 
 	// UDP fabric.
 	UDPQueue   []*Datagram
@@ -141,7 +146,7 @@ func installHooks() {
 
 // NewWorld creates the world of a run; must be called inside the bubble.
 func NewWorld(m *Sim) *World {
-	w := &World{Sim: m, Servers: map[string]*ServerNode{}, byLoc: map[string]*ServerNode{}, Clients: map[string]*ClientNode{}}
+	w := &World{Sim: m, Servers: map[string]*ServerNode{}, byLoc: map[string]*ServerNode{}, Clients: map[string]*ClientNode{}, fwdDepth: map[int64]int{}}
 	cur = w
 	m.LifeLimited = true
 	m.QuiesceCheck = w.lockProbe
@@ -483,8 +488,21 @@ func (fabricTransport) RoundTrip(req *http.Request) (*http.Response, error) {
 		return w.nasaServe(req)
 	}
 	n := w.byLoc[host]
+	// Forwarding depth: a request served through the fabric runs on the
+	// caller's goroutine, so forwards caused by it nest. Peers forward a new
+	// record once and stop at the second receipt: depth 2. Faults are only
+	// drawn for the first two levels, deeper forwards are always served, and a
+	// chain that reaches depth 8 feeds itself: it is cut and reported.
+	gid := goid()
+	w.fwdMu.Lock()
+	depth := w.fwdDepth[gid]
+	w.fwdMu.Unlock()
+	if depth >= 8 {
+		w.FailLater(w.Prop+".wedge", "forward-loop", "one request caused a chain of %d nested server-to-server forwards (%s %s): the forwarding feeds itself and never ends", depth, req.Method, req.URL.Path)
+		return nil, &netError{msg: "dial tcp " + req.URL.Host + ": connect: connection refused (simulation: forwarding loop cut)"}
+	}
 	act := HTTPAction{}
-	if w.HTTPPolicy != nil {
+	if w.HTTPPolicy != nil && depth < 2 {
 		act = w.HTTPPolicy("", host, req)
 	}
 	if n == nil || !n.Up || (n.HTTP != 0 && req.URL.Port() != strconv.Itoa(int(n.HTTP))) {
@@ -510,7 +528,17 @@ func (fabricTransport) RoundTrip(req *http.Request) (*http.Response, error) {
 		req.Body.Close()
 	}
 	w.Probe("http.peer-served")
+	w.fwdMu.Lock()
+	w.fwdDepth[gid] = depth + 1
+	w.fwdMu.Unlock()
 	code, rb := n.serve(req.Method, req.URL.RequestURI(), body, req.Header)
+	w.fwdMu.Lock()
+	if depth == 0 {
+		delete(w.fwdDepth, gid)
+	} else {
+		w.fwdDepth[gid] = depth
+	}
+	w.fwdMu.Unlock()
 	if w.HTTPObserve != nil {
 		w.HTTPObserve(n, req, body, code)
 	}
